@@ -12,6 +12,7 @@ import numpy as np
 from mc.engine import ok, bad, skip
 from mc.explore import words
 from mc import x_circ as X
+from mc import refsim as RS
 
 PROPERTY = "C27"
 LEVEL = "exploration"
@@ -111,53 +112,112 @@ def _supported(kind, meas):
     return all(m in singles for m in meas)
 
 
-def check(spec):
+def _tol(kind):
+    # default.clifford takes state vectors from stim, which are single precision (complex64)
+    return 5e-7 if kind == "cliff" else ATOL
+
+
+def _mk(m):
+    return m[0] + (":" + m[1][0] if m[0] in ("expval", "var") else "")
+
+
+def _compare(kind, meas, got, ref):
+    """-> None or (class, measurement letter, observed, expected)."""
+    if len(meas) > 1 and (not isinstance(got, (tuple, list)) or len(got) != len(meas)):
+        return ("nesting", meas[0], type(got).__name__, f"tuple of {len(meas)}")
+    got = _leaves(got, len(meas))
+    for m, g, e in zip(meas, got, ref):
+        if kind == "mixed" and m[0] == "state":
+            e = np.einsum("...i,...j->...ij", e, np.conj(e))
+        if g.shape != e.shape:
+            return ("shape", m, g.shape, e.shape)
+        if kind == "null":  # the property only promises the shapes
+            continue
+        if kind == "cliff" and m[0] == "state":
+            g = RS.phase_align(e, g)  # stabilizer simulation does not track the global phase of the state vector
+        d = float(np.max(np.abs(g - e))) if g.size else 0.0
+        if not d <= _tol(kind):
+            return ("disagree", m, g, e)
+    return None
+
+
+def _run(kind, letters, meas, lab, wires):
     import pennylane as qp
 
-    kinds, letters, meas, lab, dw = spec["devs"], spec["word"], spec["meas"], spec["lab"], spec["dw"]
-    used = {w for l in letters for w in l[1]}
+    tape = qp.tape.QuantumScript([build(l, lab) for l in letters], [X.build_meas(m, lab) for m in meas])
+    return qp.execute([tape], make_device(kind, wires), diff_method=None)[0]
+
+
+def _fails(kind, letters, meas, lab, wires):
+    """-> None | ("raised", None, message, exception type) | compare tuple, for one device on one circuit."""
+    ref = _leaves(_run("dq", letters, meas, lab, wires), len(meas))
+    try:
+        got = _run(kind, letters, meas, lab, wires)
+    except (ImportError, MemoryError, OSError):
+        raise
+    except Exception as e:  # pylint: disable=broad-except
+        msg = str(e)
+        if kind == "ref" and isinstance(e, RuntimeError) and "Cannot split up terms in sums" in msg:
+            return None  # documented rejection by split_non_commuting (variance of a sum), not a disagreement
+        return ("raised", None, f"{type(e).__name__}: {msg[:300]}", type(e).__name__)
+    return _compare(kind, meas, got, ref)
+
+
+def family_of(lab, dw, touch):
+    """main: no idle wire and the order of first appearance equals the device order and is not re-sorted;
+    idle: some device / measured wires carry no operation; perm: integer labels 0..n-1 in a permuted device order
+    (QuantumScript.map_to_standard_wires then keeps the natural integer order, which differs from the device order)."""
+    if not touch:
+        return "idle"
+    wires = [lab[i] for i in dw]
+    if all(isinstance(w, int) for w in wires) and sorted(wires) == list(range(len(wires))) and wires != sorted(wires):
+        return "perm"
+    return "main"
+
+
+def check(spec):
+    kinds, word, meas, lab, dw = spec["devs"], spec["word"], spec["meas"], spec["lab"], spec["dw"]
+    touch = spec.get("touch", True)
+    used = {w for l in word for w in l[1]}
     n = 4 if 3 in used else 3
     dwp = list(dw) + ([3] if n == 4 else [])
     wires = [lab[i] for i in dwp]
+    fam = family_of(lab, dwp, touch)
+    pre = [["Identity", [p], []] for p in dwp] if touch else []
+    letters = pre + list(word)
     B, consistent = X.circuit_batch(letters)
     if not consistent:
         return skip("inconsistent broadcast sizes")
-
-    def tape():
-        return qp.tape.QuantumScript([build(l, lab) for l in letters], [X.build_meas(m, lab) for m in meas])
-
-    bt = "" if B is None else f":batch{B}"
-    gates = "+".join(sorted({l[0] for l in letters}))
     with warnings.catch_warnings():
         warnings.simplefilter("ignore")
-        ref = _leaves(qp.execute([tape()], make_device("dq", wires), diff_method=None)[0], len(meas))
+        ref = _leaves(_run("dq", letters, meas, lab, wires), len(meas))
         for kind in kinds:
-            try:
-                got = qp.execute([tape()], make_device(kind, wires), diff_method=None)[0]
-            except (ImportError, MemoryError, OSError):
-                raise
-            except Exception as e:  # pylint: disable=broad-except
-                return bad(f"raised:{kind}:{'+'.join(m[0] for m in meas)}{bt}:{type(e).__name__}", f"{type(e).__name__}: {str(e)[:300]}",
-                           "same results as default.qubit", gates=gates)
-            if len(meas) > 1 and (not isinstance(got, (tuple, list)) or len(got) != len(meas)):
-                return bad(f"nesting:{kind}", type(got).__name__, f"tuple of {len(meas)}")
-            got = _leaves(got, len(meas))
-            for m, g, e in zip(meas, got, ref):
-                mk = m[0] + (":" + m[1][0] if m[0] in ("expval", "var") else "")
-                if kind == "mixed" and m[0] == "state":
-                    e = np.einsum("...i,...j->...ij", e, np.conj(e))
-                if kind == "null":
-                    if g.shape != e.shape:
-                        return bad(f"null-shape:{mk}{bt}", g.shape, e.shape)
-                    if (g.dtype.kind == "c") != (e.dtype.kind == "c"):
-                        return bad(f"null-dtype:{mk}{bt}", str(g.dtype), str(e.dtype))
-                    continue
-                if g.shape != e.shape:
-                    return bad(f"shape:{kind}:{mk}{bt}", g.shape, e.shape)
-                d = float(np.max(np.abs(g - e))) if g.size else 0.0
-                if not d <= ATOL:
-                    return bad(f"disagree:{kind}:{mk}{bt}:{gates}", {"got": g, "maxdiff": d}, e)
-    return ok(outcome=[kinds, X.fingerprint(ref), B], nontrivial=bool(letters))
+            f = _fails(kind, letters, meas, lab, wires)
+            if f is None:
+                continue
+            cls, m = f[0], f[1]
+            if cls == "raised":  # which measurement raises on its own?
+                m = next((mm for mm in meas if (_fails(kind, letters, [mm], lab, wires) or [None])[0] == "raised"), None)
+            mname = m[0] if m is not None else "+".join(x[0] for x in meas)
+            exp = f[3] if f[0] != "raised" else "same results as default.qubit"
+            extra = {"measurement": m, "gates": [X.letter_code(l) for l in word], "batch": B}
+            if fam != "main":
+                return bad(f"{fam}:{kind}:{cls}:meas={mname}", f[2], exp, **extra)
+            mm = [m] if m is not None else meas
+            after = None  # first prefix on which this device already fails with the failing measurement
+            for k in range(len(pre), len(letters) + 1):
+                if _fails(kind, letters[:k], mm, lab, wires) is not None:
+                    after = None if k == len(pre) else letters[k - 1]
+                    break
+            if after is None:
+                where = f"meas={_mk(m) if m is not None else mname}"
+            else:
+                b = X.letter_batch(after)
+                opn = after[0] + ("" if b is None else f"(batch{b})")
+                state_ok = mm != [["state"]] and _fails(kind, letters, [["state"]], lab, wires) is None
+                where = f"meas={mname}:after={opn}" if state_ok else f"op={opn}"
+            return bad(f"main:{kind}:{cls}:{where}", f[2], exp, **extra)
+    return ok(outcome=[kinds, X.fingerprint(ref), B], nontrivial=bool(word))
 
 
 def run(ctx):
@@ -166,12 +226,12 @@ def run(ctx):
     specs = []
     count = {}
 
-    def add(w, lab, dw, ml, pool):
+    def add(w, lab, dw, ml, pool, touch=True):
         devs = [k for k in pool if _supported(k, ml) and all((l in COMMON or l in CLIFFORD or l in EXTRA[k]) for l in w)]
         if ctx.only:
             devs = [k for k in devs if k == ctx.only]
         if devs:
-            specs.append({"devs": devs, "word": w, "lab": lab, "dw": dw, "meas": ml})
+            specs.append({"devs": devs, "word": w, "lab": lab, "dw": dw, "meas": ml, "touch": touch})
             for k in devs:
                 count[k] = count.get(k, 0) + 1
 
@@ -189,10 +249,10 @@ def run(ctx):
         if alpha is COMMON:
             ws += [w for w in words(COMMON + extras, 2) if any(l in extras for l in w)]
         for w in ws:
-            if len(w) <= 1:
+            if len(w) <= 1:  # includes the `perm` family: (LABS[1], DEVW[0]) and (LABS[0], DEVW[1])
                 combos = [(lab, dw) for lab in LABS for dw in DEVW]
             elif len(w) == 2:
-                combos = [(LABS[3], dw) for dw in DEVW] + ([] if quick else [(LABS[0], DEVW[0])])
+                combos = [(LABS[3], dw) for dw in DEVW] + ([] if quick else [(LABS[0], DEVW[0]), (LABS[2], DEVW[1])])
             else:
                 combos = [(LABS[3], DEVW[1])]
             for lab, dw in combos:
@@ -200,6 +260,10 @@ def run(ctx):
                     add(w, lab, dw, ml, pool)
             for ml in pairs:
                 add(w, LABS[3], DEVW[1], ml, pool)
+            if len(w) <= 1:  # idle family: no Identity layer, some device / measured wires carry no operation
+                for ml in singles:
+                    add(w, LABS[0], DEVW[0], ml, pool, touch=False)
+                    add(w, LABS[3], DEVW[1], ml, pool, touch=False)
     ctx.enumerate(specs, axis="word-x-labels-x-device-wires-x-measurements", chunk=16)
     ctx.coverage["alphabet"] = {"common": [X.letter_code(l) for l in COMMON], "clifford": [X.letter_code(l) for l in CLIFFORD],
                                 "device_specific": {k: [X.letter_code(l) for l in v] for k, v in EXTRA.items()},
